@@ -41,6 +41,19 @@ def cast_lossy(frm, to):
     return kind
 
 
+def const_cast_exact(op, to):
+    """the operand of a cast is a literal whose value the target type holds exactly (`x >>= 7` casts the constant 7_i32 to u32
+    for the shift amount; `0 as u8`): not a conversion of a runtime quantity"""
+    if not op or op[0] != "k":
+        return False
+    m = re.match(r"^(-?\d+)_", str(op[1]))
+    if not m or to not in INT_BITS:
+        return False
+    v = int(m.group(1))
+    lo, hi = rng(to)
+    return lo <= v <= hi
+
+
 class Site:
     __slots__ = ("fid", "bb", "kind", "detail", "loc", "key", "note")
 
@@ -70,6 +83,8 @@ def sites(F):
                     out.append(Site(fid, bi, "op", "Neg:%s" % rv[3], st[0]))
                 elif rv[0] == "cast" and rv[1] in ("IntToInt",):
                     k = cast_lossy(rv[3], rv[4])
+                    if k and const_cast_exact(rv[2], rv[4]):
+                        k = None
                     if k:
                         defs = defs or defs_of(fn)
                         p = provenance(fn, defs, rv[2])
